@@ -466,9 +466,12 @@ fn consume_expr<'i>(
                         }
                     }
                     Rule::insensitive_string => {
-                        let string = unescape_literal(&pair)?;
+                        // `insensitive_string = { "^" ~ string }` is not atomic, so whitespace and
+                        // comments may separate the `^` from the string: take the string pair.
+                        let string_pair = pair.clone().into_inner().next().unwrap();
+                        let string = unescape_literal(&string_pair)?;
                         ParserNode {
-                            expr: ParserExpr::Insens(string[2..string.len() - 1].to_owned()),
+                            expr: ParserExpr::Insens(string[1..string.len() - 1].to_owned()),
                             span: pair.clone().as_span(),
                         }
                     }
